@@ -113,3 +113,25 @@ Example C02_nonvacuous :
       (CT 6 [CChild (gN 1 2 3)]) (CT 6 [CChild (gN 3 1 2)]) = true /\
   gcc [4;8;12;16] 0 4 [(gN 1 2 3, gN 2 3 1)] [] (gN 1 2 3) (gN 2 1 3) = false.
 Proof. split; vm_compute; reflexivity. Qed.
+
+(* the same with ONE static, decidable premise on the inserted terms (EGraph/OpsPreFacts.v: term_static = every node has
+   arity-correct children, pairwise distinct binders and no slot name of the fresh residue 1 mod 4): for EVERY history of
+   insertions and unions over such terms *)
+From SE Require Import EGraph.OpsPreFacts.
+Theorem C02_congruence_for_all_histories : forall terms ops hs s n l x1 x2, List.Forall term_static terms ->
+  run_ops terms ops [] empty_egraph = Ok (hs, s) -> List.NoDup (RenameFacts.binders n) -> List.Forall2 (kid_eq s) (app_occ n) l ->
+  eg_lookup s n = Ok (Some x1) -> eg_lookup s (set_apps n l) = Ok (Some x2) -> eg_eq s x1 x2 = Ok true.
+Proof. exact node_congruence_reachable_static. Qed.
+Print Assumptions C02_congruence_for_all_histories.
+
+Theorem C02_congruence_immediately_after_union_for_all_histories : forall terms ops hs s a b u s', List.Forall term_static terms ->
+  run_ops terms ops [] empty_egraph = Ok (hs, s) -> List.In a hs -> List.In b hs -> eg_union a b s = Ok (u, s') ->
+  inv3 s' /\ hc_ok s' /\ pending s' = [] /\ ss_ok s' /\ eg_eq s' a b = Ok true /\
+  forall n l x1 x2, List.NoDup (RenameFacts.binders n) -> List.Forall (covers s') (app_occ n) -> List.Forall2 (swap_ab a b) (app_occ n) l ->
+    eg_lookup s' n = Ok (Some x1) -> eg_lookup s' (set_apps n l) = Ok (Some x2) -> eg_eq s' x1 x2 = Ok true.
+Proof. exact union_congruence_reachable_static. Qed.
+Print Assumptions C02_congruence_immediately_after_union_for_all_histories.
+
+Theorem C02_static_premise_is_decidable : forall t, term_staticb t = true <-> term_static t.
+Proof. exact term_staticb_iff. Qed.
+Print Assumptions C02_static_premise_is_decidable.
